@@ -29,9 +29,12 @@ def analyse(case, x=None, **override):
     """compute_features on fresh copies of everything; exceptions become violations."""
     if x is None:
         x = gen.render_signal(case['sig'])
+    sig, fs, fr = gen.call_args(case, x)
     with warnings.catch_warnings():
         warnings.simplefilter('ignore')
-        df = guarded(compute_features, x.copy(), case['fs'], tuple(case['f_range']), **gen.cf_kwargs(case, **override))
+        df = guarded(compute_features, sig, fs, fr, **gen.cf_kwargs(case, **override))
+    if not np.array_equal(sig, x):
+        raise Violation('signal-modified', 'compute_features changed the signal array it was given')
     return df
 
 
